@@ -86,7 +86,10 @@ func exhSpaces(tier string) []*ExhSpace {
 		return s
 	}
 	var s []*ExhSpace
-	if tier == "thorough" {
+	if tier == "thorough-light" {
+		// scans cost ~50x a lookup battery per key set
+		s = []*ExhSpace{newExhSpace(universeA, 5), newExhSpace(universeB, 3)}
+	} else if tier == "thorough" {
 		s = []*ExhSpace{newExhSpace(universeA, 5), newExhSpace(universeB, 4)}
 	} else {
 		s = []*ExhSpace{newExhSpace(universeA, 4)}
